@@ -17,6 +17,7 @@ def pk(o):
 def run(run, args):
     n = (60 if run.tier == "quick" else 600) * run.scale
     brainlib.prepare(run)
+    source_tie(run)
     rc, out, _ = make(["model/ChargeCheck.vo", "model/ConvCheck.vo", "model/PoissonCheck.vo"])
     if rc != 0:
         violation(run, {"broken": "model files do not build", "detail": out[-3000:]}, nofail=True)
